@@ -22,6 +22,7 @@ var listed = []string{
 	"calculateNextTimeout",
 	"getFirstNonZeroBit", "getFirstZeroBit",
 	"tsnBitmaskWords",
+	"isReassemblyQueueLimitReached",
 }
 
 type ftr struct {
